@@ -489,6 +489,7 @@ func __in[K comparable, V any](m map[K]V, k K) bool { _, ok := m[k]; return ok }
 func __fresh[T any](x T) bool       { return true }
 func __is(err error, target error) bool { return true }
 func __ri(n int) int                    { return 0 }
+func __rm[T any](n int) T { var z T; return z }
 func __eq[T any](a, b T) bool           { return true }
 func __alloc[T any](x T) bool           { return true }
 func __ite[T any](c bool, a, b T) T     { return a }
@@ -564,6 +565,7 @@ func __in[K comparable, V any](m map[K]V, k K) bool { _, ok := m[k]; return ok }
 func __fresh[T any](x T) bool       { return true }
 func __is(err error, target error) bool { return __errors.Is(err, target) }
 func __ri(n int) int                    { return 0 }
+func __rm[T any](n int) T { var z T; return z }
 func __seen[K comparable](k K) bool     { return true }
 func __eq[T any](a, b T) bool           { return __reflect.DeepEqual(a, b) }
 func __alloc[T any](x T) bool           { return true }
